@@ -75,6 +75,27 @@ func (s *Shard) Backup(backupFrequency, backupCount int) error {
 
 // ---------------------------
 
+// Waits for both halves of a write pipeline to finish and returns the first
+// error. If one half fails the other is cancelled but still waited for, no
+// goroutine may keep using the buckets once the storage transaction is over.
+func waitForPipeline(cancel context.CancelFunc, pointsErrC, dispatchErrC <-chan error) error {
+	var firstErr error
+	for pointsErrC != nil || dispatchErrC != nil {
+		var err error
+		select {
+		case err = <-pointsErrC:
+			pointsErrC = nil
+		case err = <-dispatchErrC:
+			dispatchErrC = nil
+		}
+		if err != nil && firstErr == nil {
+			firstErr = err
+			cancel()
+		}
+	}
+	return firstErr
+}
+
 func changePointCount(bucket diskstore.Bucket, change int) error {
 	// ---------------------------
 	countBytes := bucket.Get(POINTCOUNTKEY)
@@ -198,9 +219,8 @@ func (s *Shard) InsertPoints(points []models.Point) error {
 		im := index.NewIndexManager(bm, cacheTx, s.dbFile, s.collection.IndexSchema)
 		dispatchErrC := im.Dispatch(ctx, indexQ)
 		// ---------------------------
-		mergedErrC := utils.MergeErrorsWithContext(ctx, indexQErrC, dispatchErrC)
 		// At this point concurrent stuff is over, we can check for errors
-		if err := <-mergedErrC; err != nil {
+		if err := waitForPipeline(cancel, indexQErrC, dispatchErrC); err != nil {
 			return fmt.Errorf("could not complete insert: %w", err)
 		}
 		// ---------------------------
@@ -307,9 +327,8 @@ func (s *Shard) UpdatePoints(points []models.Point) ([]uuid.UUID, error) {
 		im := index.NewIndexManager(bm, cacheTx, s.dbFile, s.collection.IndexSchema)
 		dispatchErrC := im.Dispatch(ctx, indexQ)
 		// ---------------------------
-		mergedErrC := utils.MergeErrorsWithContext(ctx, indexQErrC, dispatchErrC)
 		// At this point concurrent stuff is over, we can check for errors
-		if err := <-mergedErrC; err != nil {
+		if err := waitForPipeline(cancel, indexQErrC, dispatchErrC); err != nil {
 			return fmt.Errorf("could not complete update: %w", err)
 		}
 		return nil
@@ -524,9 +543,8 @@ func (s *Shard) DeletePoints(deleteSet map[uuid.UUID]struct{}) ([]uuid.UUID, err
 		im := index.NewIndexManager(bm, cacheTx, s.dbFile, s.collection.IndexSchema)
 		dispatchErrC := im.Dispatch(ctx, indexQ)
 		// ---------------------------
-		mergedErrC := utils.MergeErrorsWithContext(ctx, indexQErrC, dispatchErrC)
 		// At this point concurrent stuff is over, we can check for errors
-		if err := <-mergedErrC; err != nil {
+		if err := waitForPipeline(cancel, indexQErrC, dispatchErrC); err != nil {
 			return fmt.Errorf("could not complete insert: %w", err)
 		}
 		// ---------------------------
